@@ -49,6 +49,8 @@ func runSelftest(c *Ctx, verifDir string) {
 	// cannot decide are listed, per property, in a limit.json next to the patch: they are run
 	// and reported ("limit"), and count neither as silent nor as a false alarm
 	add(filepath.Join(verifDir, "neutral_pool3", "*", "*.patch"), "pool")
+	// behaviour-preserving edits of constants, patterns, predicates and supporting code (DESIGN §8.14)
+	add(filepath.Join(verifDir, "neutral_pool4", "*", "*.patch"), "pool")
 	if len(variants) == 0 {
 		return
 	}
